@@ -111,7 +111,7 @@ pub fn run(cx: &mut Ctx) {
         sizes.sort(); sizes.dedup();
         let src: Vec<V> = (0..len as i64).map(|i| V::pair(V::I(i % 3), V::I(i * i - 7))).collect();
         for &b in &sizes {
-            for f in [BatchFn::Each(Fn_::Mul(3)), BatchFn::Rev, BatchFn::Sumall, BatchFn::Droplast, BatchFn::Dupfirst] {
+            for f in [BatchFn::Each(Fn_::Mul(3)), BatchFn::Rev, BatchFn::Sumall, BatchFn::Droplast, BatchFn::Dupfirst, BatchFn::Countrow] {
                 let local = f.elementwise();
                 // slice-dependent chunk functions are partition-dependent by design: sequential only
                 let modes: Vec<Mode> = if local { vec![Mode::Seq, Mode::Par(2), Mode::Par(len.max(1))] } else { vec![Mode::Seq] };
@@ -123,6 +123,15 @@ pub fn run(cx: &mut Ctx) {
                 n_b += 2;
             }
         }
+    }
+    // a partition EMPTIED by an upstream filter in front of a chunk function that answers the empty slice with a row:
+    // the real chunk loop never calls the function then (round-4 seeded change C02-6: a single-batch fast path did)
+    for b in [1usize, 3, 64] {
+        let src: Vec<V> = (0..5i64).map(|i| V::pair(V::I(i % 2), V::I(i))).collect();
+        let p = Prog { shape: Shape::KV, src: src.clone(), steps: vec![Step::Values, Step::Filter(Pred::Ff), Step::MapBatches(b, BatchFn::Countrow)] };
+        check_prog_x(cx, &p, &SourceSpec::Vec, Terminal::Collect, &[Mode::Seq], &o);
+        let p = Prog { shape: Shape::KV, src, steps: vec![Step::Values, Step::Filter(Pred::Ge(3)), Step::MapBatches(b, BatchFn::Countrow)] };
+        check_prog_x(cx, &p, &SourceSpec::Vec, Terminal::Collect, &[Mode::Seq], &o);
     }
     // beyond 1024 rows per chunk (a clamp of the batch size to 1024 would show here), sequential, slice-dependent
     {
